@@ -363,4 +363,251 @@ Section Proofs.
       + constructor; [|exact Hnd]. intros Hin. apply (Hdis x Hin). left. reflexivity.
       + intros z [Hz|Hz]; [subst z; exact Em|]. intros Hi. apply (Hdis z Hz). right. exact Hi.
   Qed.
+
+  (* ---------- walks ---------- *)
+
+  Lemma chain_app_r a : forall b, chain (a ++ b) -> chain b.
+  Proof.
+    induction a as [|x a IH]; intros b H; [exact H|].
+    apply IH. cbn [app] in H. destruct (a ++ b) as [|y t] eqn:E; [cbn; exact I|]. cbn [chain] in H. apply H.
+  Qed.
+
+  Lemma chain_app_l a : forall b, chain (a ++ b) -> chain a.
+  Proof.
+    induction a as [|x a IH]; intros b H; [exact I|].
+    destruct a as [|y a]; [exact I|].
+    cbn [app chain] in H. destruct H as [H1 H2]. cbn [chain]. split; [exact H1|]. apply (IH b). exact H2.
+  Qed.
+
+  Lemma chain_join a x b : chain (a ++ [x]) -> chain (x :: b) -> chain (a ++ x :: b).
+  Proof.
+    induction a as [|y a IH]; intros H1 H2; [exact H2|].
+    destruct a as [|z a].
+    - cbn [app] in *. cbn [chain] in H1. apply chain_cons; [apply H1 | exact H2].
+    - cbn [app chain] in H1. destruct H1 as [Hd H1]. cbn [app]. apply chain_cons; [exact Hd|].
+      apply IH; assumption.
+  Qed.
+
+  Lemma last_cons_default (y : key) w d d' : last (y :: w) d = last (y :: w) d'.
+  Proof.
+    revert y. induction w as [|z w IH]; intros y; [reflexivity|].
+    change (last (y :: z :: w) d) with (last (z :: w) d). change (last (y :: z :: w) d') with (last (z :: w) d'). apply IH.
+  Qed.
+
+  Lemma chain_snoc x w p : chain (x :: w) -> dep (last (x :: w) x) p -> chain (x :: w ++ [p]).
+  Proof.
+    revert x. induction w as [|y w IH]; intros x Hc Hd.
+    - cbn in Hd. cbn [app chain]. split; [exact Hd | exact I].
+    - cbn [chain] in Hc. destruct Hc as [H1 H2]. cbn [app]. apply chain_cons; [exact H1|].
+      apply IH; [exact H2|]. rewrite (last_cons_default y w y x). exact Hd.
+  Qed.
+
+  (* ---------- the function as a whole ---------- *)
+
+  Variable root : key.
+  Notation V := (fc_nodes g root).
+
+  Lemma V_root : In root V.
+  Proof. unfold fc_nodes. apply nodup_In. left. reflexivity. Qed.
+
+  Lemma V_closed x y : dep x y -> In y V.
+  Proof.
+    intros H. unfold fc_nodes. apply nodup_In. right. apply in_or_app. left.
+    apply in_map_iff. exists (y, x). split; [reflexivity | exact H].
+  Qed.
+
+  Lemma V_nodup : NoDup V.
+  Proof. unfold fc_nodes. apply NoDup_nodup. Qed.
+
+  Lemma chain_in_V : forall w x, In x V -> chain (x :: w) -> incl (x :: w) V.
+  Proof.
+    induction w as [|y w IH]; intros x Hx Hc z Hz.
+    - destruct Hz as [Hz|[]]. subst z. exact Hx.
+    - destruct Hz as [Hz|Hz]; [subst z; exact Hx|].
+      cbn [chain] in Hc. destruct Hc as [Hd Hc]. apply (IH y); [apply (V_closed x); exact Hd | exact Hc | exact Hz].
+  Qed.
+
+  (* what the loop returns, given enough fuel *)
+  Definition fc_reference : list key :=
+    match dfs (length V) root [] with DFound r => r | _ => [] end.
+
+  Lemma dfs_top_no_depth : dfs (length V) root [] <> DDepth.
+  Proof.
+    apply (dfs_no_depth V); [exact V_closed | exact V_root | constructor | intros y [] | cbn [length]; lia].
+  Qed.
+
+  Theorem fc_exact fuel : fc_fuel g root <= fuel -> findCycle klt g root fuel = FcDone fc_reference.
+  Proof.
+    intros Hf. unfold findCycle, fc_reference, fc_fuel in *.
+    pose proof (dfs_steps_bound (length V) root []) as Hb.
+    pose proof (fc_loop_dfs (length V) root [] [] []) as Hs.
+    pose proof dfs_top_no_depth as Hd.
+    set (n := dfs_steps (length V) root []) in *.
+    replace fuel with (n + S (fuel - n - 1)) by lia.
+    destruct (dfs (length V) root []) as [r| |].
+    - rewrite Hs. reflexivity.
+    - rewrite Hs. reflexivity.
+    - exfalso. apply Hd. reflexivity.
+  Qed.
+
+  Theorem fc_terminates fuel : fc_fuel g root <= fuel -> findCycle klt g root fuel <> FcOutOfFuel.
+  Proof. intros Hf. rewrite (fc_exact fuel Hf). discriminate. Qed.
+
+  (* with ANY fuel a finished run returns the same list *)
+  Theorem fc_any_fuel fuel l : findCycle klt g root fuel = FcDone l -> l = fc_reference.
+  Proof.
+    intros H. unfold findCycle in H. apply (fc_loop_more_fuel _ _ _ _ _ (fc_fuel g root)) in H.
+    fold (findCycle klt g root (fuel + fc_fuel g root)) in H.
+    rewrite fc_exact in H by lia. injection H as H. symmetry. exact H.
+  Qed.
+
+  Lemma fc_reference_sound : fc_reference <> [] ->
+    exists pre z, fc_reference = pre ++ [z] /\ hd_error fc_reference = Some root /\ chain fc_reference /\ In z pre /\ NoDup pre.
+  Proof.
+    unfold fc_reference. destruct (dfs (length V) root []) as [r| |] eqn:E; intros Hne; try (exfalso; apply Hne; reflexivity).
+    apply dfs_sound in E. destruct E as [pre [z [Hr [Hh [Hc [Hz [Hnd _]]]]]]].
+    rewrite app_nil_r in Hz.
+    exists pre, z. repeat split; try assumption.
+    subst r. destruct pre as [|a pre]; [destruct Hz|]. cbn in Hh. subst a. reflexivity.
+  Qed.
+
+  (* fc_sound: a non-empty result starts with the root, every key is followed by a key it waits on (a predecessor in the
+     direction the code traverses), the last key occurs earlier, and nothing else is repeated *)
+  Theorem fc_sound fuel l : findCycle klt g root fuel = FcDone l -> l <> [] ->
+    exists pre z, l = pre ++ [z] /\ hd_error l = Some root /\ chain l /\ In z pre /\ NoDup pre.
+  Proof.
+    intros H Hne. apply fc_any_fuel in H. subst l. apply fc_reference_sound. exact Hne.
+  Qed.
+
+  (* ---------- when is the result empty ---------- *)
+
+  (* some walk from the root along predecessor edges visits a key twice *)
+  Definition cycle_reachable : Prop := exists w, chain (root :: w) /\ ~ NoDup (root :: w).
+
+  Lemma fc_reference_empty_iff : fc_reference = [] <-> ~ cycle_reachable.
+  Proof.
+    unfold fc_reference. pose proof dfs_top_no_depth as Hd.
+    destruct (dfs (length V) root []) as [r| |] eqn:E.
+    - apply dfs_sound in E. destruct E as [pre [z [Hr [Hh [Hc [Hz [Hnd _]]]]]]]. rewrite app_nil_r in Hz.
+      split.
+      + intros ->. destruct pre; discriminate Hr.
+      + intros Hn. exfalso. apply Hn.
+        destruct pre as [|a pre]; [destruct Hz|]. cbn in Hh. subst a.
+        exists (pre ++ [z]). subst r. split; [exact Hc|].
+        intros Hno. change (root :: pre ++ [z]) with ((root :: pre) ++ [z]) in Hno.
+        apply NoDup_remove_2 in Hno. apply Hno. rewrite app_nil_r. exact Hz.
+    - split; [|reflexivity]. intros _ [w [Hc Hn]]. apply Hn.
+      apply (dfs_exhausted_walks w _ _ _ E Hc).
+    - exfalso. apply Hd. reflexivity.
+  Qed.
+
+  (* fc_complete: the search reports nothing exactly when no cycle is reachable from the root *)
+  Theorem fc_complete fuel : fc_fuel g root <= fuel ->
+    (findCycle klt g root fuel = FcDone [] <-> ~ cycle_reachable).
+  Proof.
+    intros Hf. rewrite (fc_exact fuel Hf). rewrite <- fc_reference_empty_iff. split.
+    - intros H. injection H as H. exact H.
+    - intros ->. reflexivity.
+  Qed.
+
+  Theorem fc_complete_any_fuel fuel l : findCycle klt g root fuel = FcDone l -> (l = [] <-> ~ cycle_reachable).
+  Proof. intros H. apply fc_any_fuel in H. subst l. apply fc_reference_empty_iff. Qed.
+
+  (* a stalled engine: every key reachable from the root waits on something *)
+  Definition no_dead_end : Prop := forall w, chain (root :: w) -> exists p, dep (last (root :: w) root) p.
+
+  Lemma long_walk : no_dead_end -> forall n, exists w, length w = n /\ chain (root :: w).
+  Proof.
+    intros Hnd. induction n as [|n [w [Hl Hc]]].
+    - exists []. split; [reflexivity | exact I].
+    - destruct (Hnd w Hc) as [p Hp]. exists (w ++ [p]). split.
+      + rewrite app_length. cbn [length]. lia.
+      + apply chain_snoc; assumption.
+  Qed.
+
+  Lemma no_dead_end_cycle : no_dead_end -> cycle_reachable.
+  Proof.
+    intros Hnd. destruct (long_walk Hnd (length V)) as [w [Hl Hc]].
+    exists w. split; [exact Hc|]. intros Hno.
+    pose proof (NoDup_incl_length Hno (chain_in_V w root V_root Hc)) as Hlen.
+    cbn [length] in Hlen. lia.
+  Qed.
+
+  Theorem fc_stall_finds_cycle fuel : no_dead_end -> fc_fuel g root <= fuel ->
+    exists l, findCycle klt g root fuel = FcDone l /\ l <> [].
+  Proof.
+    intros Hnd Hf. exists fc_reference. split; [apply fc_exact; exact Hf|].
+    intros He. apply fc_reference_empty_iff in He. apply He. apply no_dead_end_cycle. exact Hnd.
+  Qed.
+
+  (* ---------- the classical formulation: closed walks ---------- *)
+
+  Definition closed_walk (y : key) (m : list key) : Prop := chain (y :: m ++ [y]).     (* y -> ... -> y, at least one edge *)
+  Definition reachable (y : key) : Prop := exists w, chain (root :: w) /\ last (root :: w) root = y.
+  Definition acyclic : Prop := forall y m, ~ closed_walk y m.
+
+  Lemma not_NoDup_split (l : list key) : ~ NoDup l -> exists y l1 l2 l3, l = l1 ++ y :: l2 ++ y :: l3.
+  Proof.
+    induction l as [|a l IH]; intros H.
+    - exfalso. apply H. constructor.
+    - destruct (in_dec N.eq_dec a l) as [Hi|Hn].
+      + apply in_split in Hi. destruct Hi as [l2 [l3 ->]]. exists a, [], l2, l3. reflexivity.
+      + destruct IH as [y [l1 [l2 [l3 ->]]]].
+        * intros Hnd. apply H. constructor; assumption.
+        * exists y, (a :: l1), l2, l3. reflexivity.
+  Qed.
+
+  Lemma cycle_reachable_iff : cycle_reachable <-> exists y m, reachable y /\ closed_walk y m.
+  Proof.
+    split.
+    - intros [w [Hc Hn]]. apply not_NoDup_split in Hn. destruct Hn as [y [l1 [l2 [l3 E]]]].
+      exists y, l2. split.
+      + destruct l1 as [|a l1].
+        * cbn [app] in E. injection E as E1 E2. subst y. exists []. split; [exact I | reflexivity].
+        * cbn [app] in E. injection E as E1 E2. subst a. exists (l1 ++ [y]). split.
+          -- rewrite E2 in Hc. change (root :: l1 ++ y :: l2 ++ y :: l3) with ((root :: l1) ++ [y] ++ (l2 ++ y :: l3)) in Hc.
+             rewrite app_assoc in Hc. apply chain_app_l in Hc. exact Hc.
+          -- change (root :: l1 ++ [y]) with ((root :: l1) ++ [y]). apply last_last.
+      + unfold closed_walk. rewrite E in Hc. apply chain_app_r in Hc.
+        change (y :: l2 ++ y :: l3) with ((y :: l2) ++ [y] ++ l3) in Hc. rewrite app_assoc in Hc.
+        apply chain_app_l in Hc. exact Hc.
+    - intros [y [m [[w [Hc Hl]] Hm]]].
+      assert (Hs : exists a, root :: w = a ++ [y]).
+      { exists (removelast (root :: w)). rewrite <- Hl. apply app_removelast_last. discriminate. }
+      destruct Hs as [a Ha].
+      destruct a as [|r a].
+      + cbn [app] in Ha. injection Ha as Hr Hw. exists (m ++ [root]). unfold closed_walk in Hm. rewrite <- Hr in Hm.
+        split; [exact Hm|].
+        intros Hno. inversion Hno as [|? ? Hni _]. apply Hni. apply in_or_app. right. left. reflexivity.
+      + cbn [app] in Ha. injection Ha as Hr Hw. subst r. exists (a ++ y :: m ++ [y]). split.
+        * change (root :: a ++ y :: m ++ [y]) with ((root :: a) ++ y :: m ++ [y]). apply chain_join; [|exact Hm].
+          cbn [app]. rewrite <- Hw. exact Hc.
+        * intros Hno. change (root :: a ++ y :: m ++ [y]) with ((root :: a) ++ y :: m ++ [y]) in Hno.
+          apply NoDup_remove_2 in Hno. apply Hno. apply in_or_app. right. apply in_or_app. right. left. reflexivity.
+  Qed.
+
+  (* fc_acyclic_empty: on an acyclic graph nothing is reported, whatever the fuel *)
+  Theorem fc_acyclic_empty fuel l : acyclic -> findCycle klt g root fuel = FcDone l -> l = [].
+  Proof.
+    intros Ha H. apply (fc_complete_any_fuel fuel l H). intros Hc.
+    apply cycle_reachable_iff in Hc. destruct Hc as [y [m [_ Hm]]]. exact (Ha y m Hm).
+  Qed.
+
+  Theorem fc_reports_iff_cycle fuel : fc_fuel g root <= fuel ->
+    ((exists l, findCycle klt g root fuel = FcDone l /\ l <> []) <-> exists y m, reachable y /\ closed_walk y m).
+  Proof.
+    intros Hf. rewrite <- cycle_reachable_iff. rewrite (fc_exact fuel Hf). split.
+    - intros [l [H Hne]]. injection H as H. subst l.
+      destruct (in_dec N.eq_dec root V) as [_|Hn]; [|exfalso; apply Hn; exact V_root].
+      pose proof fc_reference_empty_iff as Hi.
+      destruct (dfs (length V) root []) as [r| |] eqn:E.
+      + apply dfs_sound in E. destruct E as [pre [z [Hr [Hh [Hc [Hz [Hnd _]]]]]]]. rewrite app_nil_r in Hz.
+        destruct pre as [|a pre]; [destruct Hz|]. cbn in Hh. subst a.
+        exists (pre ++ [z]). subst r. split; [exact Hc|].
+        intros Hno. change (root :: pre ++ [z]) with ((root :: pre) ++ [z]) in Hno.
+        apply NoDup_remove_2 in Hno. apply Hno. rewrite app_nil_r. exact Hz.
+      + exfalso. apply Hne. unfold fc_reference. rewrite E. reflexivity.
+      + exfalso. apply Hne. unfold fc_reference. rewrite E. reflexivity.
+    - intros Hc. exists fc_reference. split; [reflexivity|]. intros He. apply fc_reference_empty_iff in He. exact (He Hc).
+  Qed.
 End Proofs.
